@@ -1616,6 +1616,29 @@ def _pdf(ck):
     if not sites or len(pidx) != 1 or len(punit) != 1:
         return ck.unknown("unit", "image-carries-its-index-and-page", "the image helper does not store two of its parameters as number and unit")
     ck.add("unit", "image-carries-its-index-and-page", bool(unit_ok), "" if unit_ok else "the unit handed to the image helper is not the page parameter", definite=False)
+    # every image put on the page's list is a result of that helper call (no other producer: copies / cached records keep the number
+    # and page of another placement)
+    rets = {r.value.id for r in ast.walk(ck.fn) if isinstance(r, ast.Return) and isinstance(r.value, ast.Name)}
+    apps = [a for a in ast.walk(ck.fn) if isinstance(a, ast.Call) and isinstance(a.func, ast.Attribute) and a.func.attr in ("append", "extend", "insert")
+            and isinstance(a.func.value, ast.Name) and a.func.value.id in rets]
+    other = []
+    for a in apps:
+        v, at = (a.args[-1] if a.args else None), a
+        for _ in range(3):
+            if isinstance(v, ast.Name):
+                b = reaching(ck.fn, ck.pm, v.id, at)
+                if b is None or b.kind != "assign":
+                    v = None
+                    break
+                v, at = b.value, b.node
+            else:
+                break
+        if not (v is call):
+            other.append(f"line {LN(a)}: {ast.unparse(a)[:60]}")
+    if not apps:
+        ck.unknown("unit", "images-of-a-page-are-built-for-that-page", "no append to the returned list found")
+    else:
+        ck.add("unit", "images-of-a-page-are-built-for-that-page", not other, "a record from another source than the image helper is put on the page: " + "; ".join(other) if other else "", definite=False)
 
 
 # =====================================================================================
